@@ -16,6 +16,13 @@ RULE = ("poly.div cases for every dividend length 0..11 (empty, degree 0..10) x 
         "reciprocal that does not round-trip (49, 98, 103, ...: computed, 1/d*d != 1); general f64 with coefficient ratios up to 1e6; Complex<f64>; "
         "structured dividends u = q0*v + r0 with zero interior quotient coefficients and sparse binomial operands (multi-degree drops of the remainder); "
         "all-zero and empty divisors; divisors with a zero leading coefficient (outside the claim: tie only; floats must still terminate); "
+        "special STRUCTURE: div-self-* (kind poly.divself: u.polydiv(&u), dividend and divisor the SAME object, u empty / all-zero of either sign / constant / random / structured; every "
+        "poly.div case also runs u.polydiv(&u) and v.polydiv(&v) against the cloned-operand form inside the executor), div-related-* (u = v by value, -v, c*v, x^k*v, v*v, v reversed, one "
+        "coefficient different), div-special-lead-* (leading coefficient of the divisor 1 -1 2 1/2 -2 -1/2 3, also among general inexact f64 coefficients; Complex: +-k, +-ki, +-i, 1+-i, with "
+        "the dividend's leading coefficient from the same menu half of the time), zero-divisor-signed-* / zero-divisor-equal-rat (all-zero divisors of lengths 1..7 with zeros of either sign, "
+        "[-0.0] included; dividend empty / all-zero / random / equal to the divisor by value), div-rotated-cplx (exact Gaussian-integer divisions and real ones turned by powers of i: both "
+        "operands on the imaginary axis, one on each axis, ...), div-struct-* (dividend all-zero, with two or more vanishing leading coefficients, one-term, negative zeros; divisor c*x^k, all ones, "
+        "alternating, zero interior, special menu); rotating with the seed in the quick tier; "
         "distinct = distinct executor line; non-trivial = the long-division loop runs at least once (len u >= len v, valid divisor)")
 TRUSTED = ["Coq 8.16.1 kernel + vm_compute (primitive floats bit-exact)", "Rust executor /verif/harness (Rat = i128 rationals; k_poly.rs uses the public Polynomial API only)",
            "python driver: generators, exact recomputation of u - (q*v + r) in Fraction / Gaussian rationals (driver/polylib.py), stream comparators",
@@ -35,7 +42,8 @@ MANIFEST = dict(
           "error value (exactly the empty / all-zero divisors) or Ok; over any field u = q*v + r coefficientwise, and this together with the "
           "degree condition determines q and r (uniqueness); "
           "The pre-repair loop is refuted in Coq on the float instance (x / 49x runs into the cap). The same Gallina function is run against the "
-          "implementation (Rat vs Qc exact; f64/Complex bitwise, outcome compared exactly) on all dividend degrees 0..10 x divisor degrees 0..6, and "
+          "implementation (Rat vs Qc exact; f64/Complex bitwise, outcome compared exactly) on all dividend degrees 0..10 x divisor degrees 0..6, on dividends related to the divisor "
+          "(equal, negated, scaled, shifted, squared; the same object: u.polydiv(&u)), special leading coefficients, signed-zero divisors and exact Complex divisions off the real axis, and "
           "an exact recomputation of u - (q*v + r) searches for a failing input (exact over Rat, <= 1e-10*scale over floats)."),
     note="The size of the floating-point residual is a theorem in the standard rounding model and at binary64 absent overflow/underflow, and searched on the implementation; the exact-arithmetic identity and float termination are theorems.",
     technique="Coq proof (any arithmetic / any field) + legacy refutation by vm_compute on primitive floats + differential execution + exact residual search",
